@@ -1,5 +1,5 @@
 """C05 – see DESIGN.md §4 C05.  Workload mode 'queue' of the shared execution monitor (vf.execmon)."""
-from .. import execmon
+from .. import execmon, threaded
 from ._exec_meta import META
 
 MODE = 'queue'
@@ -15,6 +15,8 @@ def plan(tier):
 
 
 def run_case(acc, rnd, tier, case):
+    if case % 12 == 11:
+        return threaded.queue_vs_execute(acc, rnd, PID)
     modes = META[PID]['modes']
     mode, _, kw = rnd.choices(modes, weights=[m[1] for m in modes])[0]
     acc.count('mode_' + mode)
